@@ -162,10 +162,17 @@ func (sc *SlotChain) AddStatSlot(s StatSlot) {
 func (sc *SlotChain) Entry(ctx *EntryContext) *TokenResult {
 	// This should not happen, unless there are errors existing in Sentinel internal.
 	// If happened, need to add TokenResult in EntryContext
+	statPhaseStarted := false
 	defer func() {
 		if err := recover(); err != nil {
 			logging.Error(errors.Errorf("%+v", err), "Sentinel internal panic in SlotChain.Entry()")
 			ctx.SetError(errors.Errorf("%+v", err))
+			if !statPhaseStarted {
+				// The request is passed without any statistic slot having seen it,
+				// so its completion must not be reported either (otherwise the
+				// concurrency gauge is decreased without having been increased).
+				ctx.skipCompletion = true
+			}
 			return
 		}
 	}()
@@ -202,6 +209,7 @@ func (sc *SlotChain) Entry(ctx *EntryContext) *TokenResult {
 	}
 
 	// execute statistic slot
+	statPhaseStarted = true
 	ss := sc.stats
 	ruleCheckRet = ctx.RuleCheckResult
 	if len(ss) > 0 {
@@ -225,7 +233,7 @@ func (sc *SlotChain) exit(ctx *EntryContext) {
 		return
 	}
 	// The OnCompleted is called only when entry passed
-	if ctx.IsBlocked() {
+	if ctx.IsBlocked() || ctx.skipCompletion {
 		return
 	}
 	for _, s := range sc.stats {
